@@ -83,4 +83,8 @@ var Map zconst.LangMap = map[zconst.ZogType]map[zconst.ZogIssueCode]string{
 		zconst.IssueCodeZHTTPInvalidForm:  "invalid form data",
 		zconst.IssueCodeZHTTPInvalidQuery: "invalid query params",
 	},
+	// z.CustomFunc schemas (type "custom") have no built-in tests: every issue falls back to this message
+	"custom": {
+		zconst.IssueCodeFallback: "value is invalid",
+	},
 }
